@@ -832,6 +832,18 @@ fn ops(c: &mut Ctx, vals: &[TimeDelta]) {
             }
             Err(()) => c.fail("Display panicked", &format!("{s} {n}")),
         }
+        // float views (outside the model): within a few units in the last place of the exact quotient;
+        // the error is absolute in the magnitude of the seconds field (cancellation for e.g. -1 s + 999999999 ns)
+        match guard(|| (d.as_seconds_f64(), d.as_seconds_f32())) {
+            Ok((f, g)) => {
+                let r = exact as f64 / 1e9;
+                let mag = (s as f64).abs().max(1.0);
+                if !((f - r).abs() <= 4.0 * f64::EPSILON * mag) || !((g as f64 - r).abs() <= 4.0 * f32::EPSILON as f64 * mag) {
+                    c.fail("as_seconds_f64 / as_seconds_f32 is not the count divided by 10^9 (to float accuracy)", &format!("{s} {n} -> {f:e} {g:e}, expected {r:e}"));
+                }
+            }
+            Err(()) => c.fail("as_seconds_f64 / as_seconds_f32 panicked", &format!("{s} {n}")),
+        }
         match guard(|| d.to_std().ok()) {
             Ok(Some(x)) => {
                 if exact < 0 || x.as_nanos() as i128 != exact {
